@@ -26,6 +26,66 @@ pub enum Mode {
     Frames,   // C06
 }
 
+/// Multiset of outstanding request numbers (order never matters; tens of thousands may be outstanding).
+#[derive(Clone)]
+pub struct Pend {
+    cnt: [u32; 256],
+    len: usize,
+}
+impl Pend {
+    fn new() -> Self {
+        Pend { cnt: [0; 256], len: 0 }
+    }
+    fn len(&self) -> usize {
+        self.len
+    }
+    fn is_empty(&self) -> bool {
+        self.len == 0
+    }
+    fn contains(&self, v: &u8) -> bool {
+        self.cnt[*v as usize] > 0
+    }
+    fn push(&mut self, v: u8) {
+        self.cnt[v as usize] += 1;
+        self.len += 1;
+    }
+    fn remove_one(&mut self, v: u8) -> bool {
+        if self.cnt[v as usize] > 0 {
+            self.cnt[v as usize] -= 1;
+            self.len -= 1;
+            true
+        } else {
+            false
+        }
+    }
+    fn distinct(&self) -> Vec<u8> {
+        (0..=255u8).filter(|v| self.cnt[*v as usize] > 0).collect()
+    }
+    /// sorted expansion (only for small multisets and for reports)
+    fn to_vec(&self) -> Vec<u8> {
+        let mut out = Vec::with_capacity(self.len.min(4096));
+        for v in 0..=255u8 {
+            for _ in 0..self.cnt[v as usize].min(4096) {
+                out.push(v);
+            }
+        }
+        out
+    }
+}
+impl std::fmt::Debug for Pend {
+    fn fmt(&self, f: &mut std::fmt::Formatter<'_>) -> std::fmt::Result {
+        if self.len <= 24 {
+            write!(f, "{:?}", self.to_vec())
+        } else {
+            write!(f, "[{} outstanding:", self.len)?;
+            for v in self.distinct() {
+                write!(f, " {}x{}", v, self.cnt[v as usize])?;
+            }
+            write!(f, "]")
+        }
+    }
+}
+
 #[derive(Clone, Debug)]
 struct Record {
     frame_addr: u32,
@@ -40,7 +100,7 @@ struct Record {
 pub struct IrqObserver {
     mode: Mode,
     timer_irqs: bool,
-    pend: Vec<u8>,
+    pend: Pend,
     stack: Vec<Record>,
     prev_er: [u32; 8],
     pub entries: Vec<u32>,
@@ -73,7 +133,7 @@ impl IrqObserver {
         IrqObserver {
             mode,
             timer_irqs,
-            pend: vec![],
+            pend: Pend::new(),
             stack: vec![],
             prev_er: [0; 8],
             entries: vec![0; nhandlers],
@@ -156,8 +216,9 @@ impl Observer for IrqObserver {
             return Ok(());
         }
         self.exec_count += 1;
-        let op0 = Self::rd(cpu, prev.pc);
-        let op1 = Self::rd(cpu, prev.pc + 1);
+        // the fetch ignores bit 0 of PC
+        let op0 = Self::rd(cpu, prev.pc & !1);
+        let op1 = Self::rd(cpu, (prev.pc & !1) + 1);
         // An interrupt entry: SP dropped by 4 and PC is right behind the BRN of the handler that SOME vector's table
         // entry (as it is in memory now - guests rewrite entries at run time) points to. Which vector it was is decided
         // among the candidates by what is outstanding.
@@ -169,44 +230,42 @@ impl Observer for IrqObserver {
                     cands.push(v as u8);
                 }
             }
-            match g.handler_after_brn(row.pc) {
+            match g.handler_after_brn(row.pc & !1) {
                 Some(h) => {
                     if cands.is_empty() {
                         // PC is behind a handler's BRN with a fresh frame, but no vector leads here any more
                         return Err(fail(mode, if mode == Mode::Delivery { "spurious-entry" } else { "vector" }, format!(
                             "iteration {}: the handler at {:06x} was entered but no vector table entry points to it now (outstanding requests {:?} lead to {:?})",
-                            prev.iter, h.addr, self.pend, self.pend.iter().map(|v| Self::rd32(cpu, 4 * *v as u32) & 0x00ff_ffff).collect::<Vec<_>>()
+                            prev.iter, h.addr, self.pend, self.pend.distinct().iter().map(|v| Self::rd32(cpu, 4 * *v as u32) & 0x00ff_ffff).collect::<Vec<_>>()
                         )));
                     }
-                    let real_now = {
-                        let mut r = cpu.verif_pending();
-                        r.sort();
-                        r
-                    };
                     let outstanding: Vec<u8> = cands.iter().copied().filter(|v| self.pend.contains(v)).collect();
                     let timer = self.timer_irqs;
-                    let pick = outstanding
-                        .iter()
-                        .copied()
-                        .find(|v| {
-                            // consuming v must leave the model a sub-multiset of the real queue; what the real queue has
-                            // beyond that may only be requests the running timer raised meanwhile
-                            let mut m = self.pend.clone();
-                            let pos = m.iter().position(|x| x == v).unwrap();
-                            m.remove(pos);
-                            let mut r = real_now.clone();
-                            for x in &m {
-                                match r.iter().position(|y| y == x) {
-                                    Some(p) => {
-                                        r.remove(p);
+                    let pick = if outstanding.len() <= 1 {
+                        outstanding.first().copied().unwrap_or(cands[0])
+                    } else {
+                        // several vectors lead to this handler and are outstanding: the one that was consumed is the one
+                        // whose removal makes the model equal the real queue (which may additionally hold requests the
+                        // running timer raised meanwhile)
+                        let mut rc = [0u32; 256];
+                        for x in cpu.verif_pending() {
+                            rc[x as usize] += 1;
+                        }
+                        outstanding
+                            .iter()
+                            .copied()
+                            .find(|v| {
+                                (0..256usize).all(|i| {
+                                    let m = self.pend.cnt[i] - (i == *v as usize) as u32;
+                                    if timer && matches!(i, 36 | 37 | 39) {
+                                        m <= rc[i]
+                                    } else {
+                                        m == rc[i]
                                     }
-                                    None => return false,
-                                }
-                            }
-                            r.iter().all(|x| timer && matches!(x, 36 | 37 | 39))
-                        })
-                        .or(outstanding.first().copied())
-                        .unwrap_or(cands[0]);
+                                })
+                            })
+                            .unwrap_or(outstanding[0])
+                    };
                     entry_vector = Some(pick);
                     if self.table0.get(pick as usize).copied() != Some(Self::rd32(cpu, 4 * pick as u32)) {
                         self.dynamic_vector_entries += 1;
@@ -229,12 +288,10 @@ impl Observer for IrqObserver {
             let real = cpu.verif_pending();
             let mut model = self.pend.clone();
             if let Some(h) = &irq_entry {
-                if let Some(pos) = model.iter().position(|v| *v == h.vector) {
-                    model.remove(pos);
-                }
+                model.remove_one(h.vector);
             }
             let mut extra = real.clone();
-            for v in &model {
+            for v in &model.to_vec() {
                 if let Some(pos) = extra.iter().position(|x| x == v) {
                     extra.remove(pos);
                 }
@@ -262,20 +319,16 @@ impl Observer for IrqObserver {
                         format!("iteration {}: vector {} entered while CCR.I was set (CCR={:02x}, PC={:06x})", prev.iter, h.vector, prev.ccr, prev.pc),
                     ));
                 }
-                match self.pend.iter().position(|v| *v == h.vector) {
-                    Some(pos) => {
-                        self.pend.remove(pos);
-                    }
-                    None => {
+                match self.pend.remove_one(h.vector) {
+                    true => {}
+                    false => {
                         return Err(fail(mode, "spurious-entry", format!("iteration {}: vector {} entered but no such request is outstanding (outstanding: {:?}) - duplicated or redirected", prev.iter, h.vector, self.pend)));
                     }
                 }
             } else {
-                match self.pend.iter().position(|v| *v == h.vector) {
-                    Some(pos) => {
-                        self.pend.remove(pos);
-                    }
-                    None => {
+                match self.pend.remove_one(h.vector) {
+                    true => {}
+                    false => {
                         return Err(fail(mode, "vector", format!("iteration {}: the handler of vector {} was entered but the outstanding requests are {:?} - PC was not loaded from the entry at 4 x vector number", prev.iter, h.vector, self.pend)));
                     }
                 }
@@ -299,7 +352,7 @@ impl Observer for IrqObserver {
             let n = (op1 >> 4) as u32;
             self.trap_entries += 1;
             self.sig.byte(0x20 | self.context_class(g, &prev));
-            if let Some(h) = g.handler_at(row.pc) {
+            if let Some(h) = g.handler_at(row.pc & !1) {
                 let hidx = g.handlers.iter().position(|x| x.addr == h.addr).unwrap();
                 self.entries[hidx] += 1;
                 self.check_entry(cpu, g, &prev, row, 8 + n, prev.pc + 2, h.addr, hidx, matches!(h.kind, HandlerKind::Empty))?;
@@ -365,10 +418,15 @@ impl Observer for IrqObserver {
         }
         {
             // the real queue must hold exactly the outstanding requests (C06: a request may only leave the queue by an entry)
-            let mut real = cpu.verif_pending();
-            let mut model = self.pend.clone();
-            real.sort();
-            model.sort();
+            let (real, model) = if self.pend.len() > 400 || cpu.verif_pending_len() > 400 {
+                // huge queues: the lengths are compared at every boundary, the contents again once they are small
+                let (a, b) = (cpu.verif_pending_len(), self.pend.len());
+                (vec![(a % 251) as u8, (a / 251 % 251) as u8, (a / 63001) as u8], vec![(b % 251) as u8, (b / 251 % 251) as u8, (b / 63001) as u8])
+            } else {
+                let mut real = cpu.verif_pending();
+                real.sort();
+                (real, self.pend.to_vec())
+            };
             if real != model {
                 return Err(fail(mode, if mode == Mode::Delivery { "queue" } else { "acceptance" }, format!("iteration {}: outstanding requests per the delivery model {:?}, real queue {:?} - a request was lost, duplicated or invented (or consumed without an entry)", row.iter, model, real)));
             }
@@ -497,10 +555,11 @@ impl IrqObserver {
         }
         let ve = Self::rd32(cpu, 4 * vector);
         let target = ve & 0x00ff_ffff;
-        // `expect_pc` is where the observer found the CPU (handler start, or start + 2 behind the BRN
-        // for an interrupt); it must be what the vector entry of this very vector number says
-        let behind_brn = expect_pc.wrapping_sub(target) == 2;
-        if row.pc != expect_pc || !(target == expect_pc || behind_brn) {
+        // PC must be exactly what the low 24 bits of this vector's entry say (an odd entry gives an odd PC); for an
+        // interrupt the handler's leading 2-byte BRN has already run when the observer looks
+        let is_irq = expect_pc == g.handlers[hidx].addr + 2;
+        let want_pc = if is_irq { target.wrapping_add(2) } else { target };
+        if row.pc != want_pc || (target & !1) != g.handlers[hidx].addr {
             return Err(fail(mode, "vector", format!("iteration {}: vector {}: table entry {:08x} (low 24 bits {:06x}) but PC is {:06x}", prev.iter, vector, ve, target, row.pc)));
         }
         if cpu.er[..7] != self.prev_er[..7] {
@@ -521,10 +580,10 @@ fn block_iters(b: &Block, sub_delay: u16) -> u64 {
     match b {
         Block::Delay(n) => 1 + 2 * (*n).max(1) as u64,
         Block::Store { .. } => 2,
-        Block::Bset { .. } | Block::Bclr { .. } => 1,
+        Block::Bset { .. } | Block::Bclr { .. } | Block::BitOp { .. } => 1,
         Block::Arith(_) => 5,
         Block::Call => 3 + 2 * sub_delay.max(1) as u64,
-        Block::Write { .. } | Block::WriteAt { .. } | Block::WriteArgAt { .. } | Block::SetHandler { .. } | Block::SetHandlerAt { .. } | Block::Syscall { .. } => 3,
+        Block::Write { .. } | Block::WriteAt { .. } | Block::WriteArgAt { .. } | Block::SetHandler { .. } | Block::SetHandlerAt { .. } | Block::SetHandlerAlias { .. } | Block::Syscall { .. } => 3,
         Block::Trapa(_) => 12,
         Block::SetCcr(_) => 5,
         Block::Raw(v) => (v.len() as u64 + 1) / 2,
@@ -532,6 +591,7 @@ fn block_iters(b: &Block, sub_delay: u16) -> u64 {
         Block::Heavy => 2,
         Block::SetVector { .. } => 4,
         Block::LoadEr5(_) => 1,
+        Block::OddRte(_) => 6,
         Block::StoreVia { .. } => 3,
         Block::StoreW { .. } => 2,
     }
@@ -631,8 +691,18 @@ pub fn generate(rng: &mut Rng, tier: Tier, frames: bool) -> Scn {
                 Block::SetCcr(c)
             }
             11 | 12 if use_traps => Block::Trapa(rng.range(1, 3) as u8),
-            13 => Block::Store { addr: SCRATCH_LO + rng.below(64) as u32, val: rng.u8(), short: false },
-            14 | 15 if dynamic && !irq_vectors.is_empty() => Block::SetVector { vector: *rng.pick(&irq_vectors), handler: rng.below(n_irq_handlers as u64) as usize, top: rng.u8() },
+            13 => {
+                if rng.chance(1, 2) {
+                    Block::Store { addr: SCRATCH_LO + rng.below(64) as u32, val: rng.u8(), short: false }
+                } else {
+                    let c = if rng.chance(1, 2) { 0x80 | (rng.u8() & 0x3f) } else { rng.u8() & 0x7f };
+                    if c & 0x80 != 0 {
+                        masked_blocks.push(blocks.len() + 1);
+                    }
+                    Block::OddRte(c)
+                }
+            }
+            14 | 15 if dynamic && !irq_vectors.is_empty() => Block::SetVector { vector: *rng.pick(&irq_vectors), handler: rng.below(n_irq_handlers as u64) as usize, top: rng.u8(), odd: false },
             16 if dynamic && !irq_vectors.is_empty() => Block::SetHandler { vector: *rng.pick(&irq_vectors) as u32, handler: rng.below(n_irq_handlers as u64) as usize },
             17 if dynamic => Block::LoadEr5(if rng.chance(1, 2) { rng.u32() } else { *rng.pick(&[0u32, 1, 0xffff_ffff, 0x0041_6900]) }),
             18 | 19 if io_stores => {
@@ -664,8 +734,12 @@ pub fn generate(rng: &mut Rng, tier: Tier, frames: bool) -> Scn {
         vec_top: rng.u8(),
         sub_delay: rng.range(1, 10) as u16,
         init_ccr: if rng.chance(1, 2) { Some(rng.u8() & 0x7f) } else { Some(0x80 | rng.u8()) },
-        stack_off: if rng.chance(1, 2) { 0 } else { 4 * rng.below(64) as u16 },
-        exit_style: if rng.chance(1, 2) { 0 } else { rng.below(5) as u8 },
+        stack_off: match rng.below(8) {
+            0..=3 => 0,
+            4 => rng.below(256) as u16, // any alignment, odd stack pointers included
+            _ => 4 * rng.below(64) as u16,
+        },
+        exit_style: if rng.chance(1, 2) { 0 } else { rng.below(9) as u8 },
     };
     let est = estimate_iters(&guest);
     // event schedule
@@ -694,7 +768,11 @@ pub fn generate(rng: &mut Rng, tier: Tier, frames: bool) -> Scn {
     }
     if flood && !irq_vectors.is_empty() {
         // 1 flood in 10 is a mega flood (counters and depths beyond 8 bits)
-        let n = if rng.chance(1, 10) { rng.range(256, 700) } else { rng.range(40, 120) } as usize;
+        let n = match rng.below(100) {
+            0 if !timer_irqs => rng.range(65_540, 66_000), // more acceptances than a 16-bit counter holds
+            1..=9 => rng.range(256, 700),
+            _ => rng.range(40, 120),
+        } as usize;
         let trig = if !masked_blocks.is_empty() { Trigger::AtBlock { block: (*rng.pick(&masked_blocks)).min(guest.blocks.len() - 1), nth: 0 } } else { Trigger::Iter(rng.below(est + 2)) };
         events.push(Event { trig, act: Action::Burst((0..n).map(|_| *rng.pick(&irq_vectors)).collect()) });
     }
